@@ -11,7 +11,7 @@
     (`cfg.dialer.ClientACK.MaxMessageSize = n` is `write ["dialer","ClientACK",
     "MaxMessageSize"] n`); assigning a pointer replaces the object below the
     path: by an object the caller supplied (`Dialer(d)`: `redirect ["dialer"]
-    (some u)`, `Loc.user k u` — callers give different clients different
+    (.user u)`, `Loc.user k u` — callers give different clients different
     objects) or by one the option allocates (`redirect p none`).
   * a scalar lives in a cell = (location of its object, path below it); the
     cell a path denotes is found by `resolve` from the client's own redirect
@@ -29,6 +29,19 @@ inductive Loc where
   | own (k : Nat)
   | glob (g : String)
   | user (k u : Nat)
+  /-- an object allocated once per Option VALUE (outside the closure the option returns): every
+      client the value is applied to points to it -/
+  | value (v : Nat)
+  deriving DecidableEq, Repr
+
+/-- what an option puts in place of the object below a pointer path -/
+inductive Target where
+  /-- an object allocated by this application of the option -/
+  | fresh
+  /-- an object the caller passed to this client -/
+  | user (u : Nat)
+  /-- an object allocated when the Option value `v` was made -/
+  | value (v : Nat)
   deriving DecidableEq, Repr
 
 abbrev Cell := Loc × Path
@@ -37,17 +50,17 @@ structure Facts where
   /-- pointer fields of the default configuration initialised with a package-level object -/
   shared : List (Path × String)
 
-/-- pointer path ↦ `some u` (object supplied by the caller) | `none` (object allocated by an option);
-    most recent first -/
-abbrev Redir := List (Path × Option Nat)
+/-- pointer path ↦ what replaced the object below it; most recent first -/
+abbrev Redir := List (Path × Target)
 
 def strictPrefix (q p : Path) : Bool := q.isPrefixOf p && decide (q.length < p.length)
 
 /-- the cell the selector path `p` denotes for client `k` -/
 def resolve (F : Facts) (k : Nat) (r : Redir) (p : Path) : Cell :=
   match r.find? (fun e => strictPrefix e.1 p) with
-  | some (q, some u) => (.user k u, p.drop q.length)
-  | some (_, none) => (.own k, p)
+  | some (q, .user u) => (.user k u, p.drop q.length)
+  | some (_, .fresh) => (.own k, p)
+  | some (q, .value v) => (.value v, p.drop q.length)
   | none =>
     match F.shared.find? (fun e => strictPrefix e.1 p) with
     | some (q, g) => (.glob g, p.drop q.length)
@@ -55,7 +68,7 @@ def resolve (F : Facts) (k : Nat) (r : Redir) (p : Path) : Cell :=
 
 inductive Step where
   | write (p : Path) (v : String)
-  | redirect (p : Path) (t : Option Nat)
+  | redirect (p : Path) (t : Target)
   deriving DecidableEq, Repr
 
 /-- written cells only; an unwritten cell has its initial value -/
@@ -91,8 +104,10 @@ def effective (F : Facts) (init : Cell → String) (h : Heap) (k : Nat) (steps :
   let c := resolve F k (redirOf [] steps) p
   (h c).getD (init c)
 
+/-- a location more than one client can reach: a package-level object or an object of an Option value -/
 def isGlob : Loc → Bool
   | .glob _ => true
+  | .value _ => true
   | _ => false
 
 /-- the guard of the partial theorem: no option of any client assigns a cell of a package-level object -/
@@ -148,6 +163,7 @@ theorem resolve_loc (F : Facts) (k : Nat) (r : Redir) (p : Path) :
   split
   · exact Or.inr (Or.inl ⟨_, rfl⟩)
   · exact Or.inl rfl
+  · exact Or.inr (Or.inr rfl)
   · split
     · exact Or.inr (Or.inr rfl)
     · exact Or.inl rfl
@@ -243,30 +259,67 @@ theorem isolated_of_noGlobalWrite (F : Facts) (prog : List (List Step)) (hg : No
   rw [hpost]
   exact agree_steps F k c steps _ _ [] hpre
 
-/-- with no shared object in the defaults no option can reach a package-level cell -/
-theorem noGlobalWrite_of_no_shared (F : Facts) (hF : F.shared = []) (prog : List (List Step)) :
+def isValueTarget : Target → Bool
+  | .value _ => true
+  | _ => false
+
+/-- no option of the client installs an object that belongs to an Option value -/
+def valueFree : List Step → Bool
+  | [] => true
+  | .write _ _ :: rest => valueFree rest
+  | .redirect _ t :: rest => !isValueTarget t && valueFree rest
+
+def RedirValueFree (r : Redir) : Prop := ∀ e ∈ r, isValueTarget e.2 = false
+
+theorem resolve_not_value (F : Facts) (k : Nat) (r : Redir) (hr : RedirValueFree r) (p : Path) :
+    ∀ v, (resolve F k r p).1 ≠ .value v := by
+  intro v
+  unfold resolve
+  split
+  · simp
+  · simp
+  · rename_i q w hq
+    have := hr _ (List.mem_of_find?_eq_some hq)
+    simp [isValueTarget] at this
+  · split <;> simp
+
+/-- with no shared object in the defaults, and no object of an Option value installed, no
+    option can reach a cell another client reaches -/
+theorem noGlobalWrite_of_no_shared (F : Facts) (hF : F.shared = []) (prog : List (List Step))
+    (hv : ∀ steps ∈ prog, valueFree steps = true) :
     NoGlobalWrite F prog := by
-  intro k steps _ c hc
-  have key : ∀ (s : List Step) (r : Redir), c ∈ cellsWritten F k r s → isGlob c.1 = false := by
+  intro k steps hk c hc
+  have key : ∀ (s : List Step) (r : Redir), valueFree s = true → RedirValueFree r →
+      c ∈ cellsWritten F k r s → isGlob c.1 = false := by
     intro s
     induction s with
-    | nil => intro r h; simp [cellsWritten] at h
+    | nil => intro r _ _ h; simp [cellsWritten] at h
     | cons st rest ih =>
-      intro r h
+      intro r hs hr h
       cases st with
       | write p v =>
+        simp only [valueFree] at hs
         simp only [cellsWritten, List.mem_cons] at h
         rcases h with rfl | h
-        · unfold resolve
+        · have hnv := resolve_not_value F k r hr p
+          unfold resolve at hnv ⊢
           split
           · rfl
           · rfl
+          · rename_i q w hq
+            have := hr _ (List.mem_of_find?_eq_some hq)
+            simp [isValueTarget] at this
           · simp [hF, isGlob]
-        · exact ih r h
+        · exact ih r hs hr h
       | redirect p t =>
+        simp only [valueFree, Bool.and_eq_true, Bool.not_eq_true'] at hs
         simp only [cellsWritten] at h
-        exact ih _ h
-  exact key steps [] hc
+        refine ih _ hs.2 ?_ h
+        intro e he
+        rcases List.mem_cons.mp he with rfl | he
+        · exact hs.1
+        · exact hr e he
+  exact key steps [] (hv steps (List.mem_of_getElem? hk)) (by intro e he; simp at he) hc
 
 /-! ### options by name: the static guard -/
 
@@ -311,23 +364,30 @@ theorem cellsWritten_append (F : Facts) (k : Nat) : ∀ (a b : List Step) (r : R
 /-- a conforming use of an option that neither writes nor replaces a shared
     object assigns no package-level cell, whatever was redirected before -/
 theorem use_no_global (F : Facts) (opts : Footprints) (k : Nat) (u : OptUse) (hc : Conforms opts u)
-    (hw : ∀ fp, opts.lookup u.name = some fp → writesShared F fp = false ∧ replacesShared F fp = false) :
-    ∀ (r : Redir), ∀ c ∈ cellsWritten F k r u.steps, isGlob c.1 = false := by
+    (hw : ∀ fp, opts.lookup u.name = some fp → writesShared F fp = false ∧ replacesShared F fp = false)
+    (hvf : valueFree u.steps = true) :
+    ∀ (r : Redir), RedirValueFree r → ∀ c ∈ cellsWritten F k r u.steps, isGlob c.1 = false := by
   obtain ⟨fp, hfp, hsteps⟩ := hc
   obtain ⟨hws, hrs⟩ := hw fp hfp
   have key : ∀ (s : List Step), (∀ st ∈ s, ∃ e ∈ fp, e.1.isPrefixOf (stepPath st) = true) →
-      ∀ (r : Redir), ∀ c ∈ cellsWritten F k r s, isGlob c.1 = false := by
+      valueFree s = true → ∀ (r : Redir), RedirValueFree r → ∀ c ∈ cellsWritten F k r s, isGlob c.1 = false := by
     intro s
     induction s with
-    | nil => intro _ r c h; simp [cellsWritten] at h
+    | nil => intro _ _ r _ c h; simp [cellsWritten] at h
     | cons st rest ih =>
-      intro hall r c h
+      intro hall hs r hr c h
       have hrest := ih (fun x hx => hall x (List.mem_cons_of_mem _ hx))
       cases st with
       | redirect p t =>
+        simp only [valueFree, Bool.and_eq_true, Bool.not_eq_true'] at hs
         simp only [cellsWritten] at h
-        exact hrest _ c h
+        refine hrest hs.2 _ ?_ c h
+        intro e he
+        rcases List.mem_cons.mp he with rfl | he
+        · exact hs.1
+        · exact hr e he
       | write p v =>
+        simp only [valueFree] at hs
         simp only [cellsWritten, List.mem_cons] at h
         rcases h with rfl | h
         · obtain ⟨e, he, hep⟩ := hall (.write p v) List.mem_cons_self
@@ -336,6 +396,9 @@ theorem use_no_global (F : Facts) (opts : Footprints) (k : Nat) (u : OptUse) (hc
           split
           · rfl
           · rfl
+          · rename_i q w hq
+            have := hr _ (List.mem_of_find?_eq_some hq)
+            simp [isValueTarget] at this
           · split
             · rename_i q g hq
               exfalso
@@ -358,7 +421,41 @@ theorem use_no_global (F : Facts) (opts : Footprints) (k : Nat) (u : OptUse) (hc
                   exact ⟨e, he, (q, g), hmem, List.isPrefixOf_iff_prefix.mpr h3⟩
                 rw [hrs] at this; cases this
             · rfl
-        · exact hrest r c h
-  exact key u.steps hsteps
+        · exact hrest hs r hr c h
+  exact key u.steps hsteps hvf
+
+/-! ### Option values applied to several clients -/
+
+/-- one application of an Option value: the option's name, the identity of the VALUE (the same
+    value may be applied to several clients: a slice of base options) and what the application
+    assigns, with every allocation marked `fresh` -/
+structure App where
+  name : String
+  value : Nat
+  steps : List Step
+  deriving Repr
+
+/-- what the application really installs: an allocation the option constructor performs OUTSIDE
+    the closure it returns (`captured`: option ↦ pointer paths, generated) is one object per value -/
+def realise (captured : List (String × List Path)) (a : App) : List Step :=
+  a.steps.map fun s =>
+    match s with
+    | .redirect p .fresh =>
+      if ((captured.lookup a.name).getD []).contains p then .redirect p (.value a.value) else .redirect p .fresh
+    | s => s
+
+theorem realise_nil (a : App) : realise [] a = a.steps := by
+  unfold realise
+  conv => rhs; rw [← List.map_id a.steps]
+  apply List.map_congr_left
+  intro s _
+  cases s with
+  | write p v => rfl
+  | redirect p t => cases t <;> simp
+
+theorem valueFree_append : ∀ (a b : List Step), valueFree (a ++ b) = (valueFree a && valueFree b)
+  | [], b => by simp [valueFree]
+  | .write _ _ :: a, b => by simp [valueFree, valueFree_append a b]
+  | .redirect _ t :: a, b => by simp [valueFree, valueFree_append a b, Bool.and_assoc]
 
 end Opcua.CfgAlias
